@@ -608,101 +608,11 @@ fn c15_l2_stream_header() {
     }
 }
 
-macro_rules! l2_typestate {
-    ($name:ident, $mk:expr, $N:literal, $LEN:literal) => {
-        #[kani::proof]
-        #[kani::unwind(6)]
-        #[kani::stub(<wtransport_proto::bytes::IoReadError as std::convert::From<std::io::Error>>::from, crate::common::io_read_err_stub)]
-        fn $name() {
-            let (buf, _) = l2_input::<$N>(0x40, 0x41);
-            let len: usize = $LEN; // concrete input length per instance (symbolic contents)
-            let mut sa = $mk;
-            let mut sb = $mk;
-            let mut s: &[u8] = &buf[..len];
-            let sync = sa.read_frame(&mut s);
-            let sync_consumed = len - s.len();
-            let mut rd = ByteReader::<$N> { data: buf, len, off: 0 };
-            let asy = poll_once(sb.read_frame_async(&mut rd)).unwrap();
-            match (sync, asy) {
-                (Ok(Some(fs)), Ok(fa)) => {
-                    assert!(kind_id(fs.kind()) == kind_id(fa.kind()), "kind differs");
-                    assert!(fs.payload().len() == fa.payload().len() && eq_prefix(fs.payload(), fa.payload(), fs.payload().len()), "payload differs");
-                    assert!(sync_consumed == rd.off, "async typestate reader consumed a different number of bytes");
-                    kani::cover!(true, "frame");
-                    core::mem::forget(fa);
-                }
-                (Ok(None), Err(stream::IoReadError::IO(wbytes::IoReadError::ImmediateFin))) => {
-                    // nothing of the *current* frame was read (input empty, or only whole skipped frames before)
-                    assert!(rd.off == len, "ImmediateFin without draining the source");
-                    kani::cover!(len == 0, "empty");
-                }
-                (Ok(None), Err(stream::IoReadError::H3(ErrorCode::Frame))) => {
-                    assert!(len > 0 && rd.off == len, "truncated frame: source not drained");
-                    kani::cover!(true, "FIN inside a frame => H3_FRAME_ERROR");
-                }
-                (Err(es), Err(stream::IoReadError::H3(ea))) => {
-                    assert!(es.to_code().into_inner() == ea.to_code().into_inner(), "different H3 error code");
-                    kani::cover!(true, "same h3 error");
-                }
-                _ => assert!(false, "one-shot and async typestate readers disagree"),
-            }
-        }
-    };
-}
-
-// @h props=C15,C12 tier=quick t=2400 mem=20 sub=L2-typestate-control covers=any
-// @fn wtransport-proto/src/stream.rs StreamUniRemoteH3::{read_frame_async,read_frame}
-// @bound control stream; every input of exactly 3 bytes whose first frame type is a 1-byte varint with payload length <= 3, or the WT signal 0x40 0x41; byte-wise delivery, never Pending (L1 covers chunkings)
-// @oracle same frame / same H3 error code as the one-shot typestate reader, same bytes consumed; truncated frame => H3_FRAME_ERROR, clean end => ImmediateFin
-// @assume From<io::Error> stub; model source never errors
-// @outside inputs longer than 3 bytes in this instance (lengths 3,4 quick; 5 thorough)
-// @unwindset read_frame_async:4
-l2_typestate!(c15_l2_typestate_control_len3, control_stream(), 5, 3);
-
-// @h props=C15,C12 tier=quick t=2400 mem=20 sub=L2-typestate-control covers=any
-// @fn wtransport-proto/src/stream.rs StreamUniRemoteH3::{read_frame_async,read_frame}
-// @bound control stream; every input of exactly 4 bytes whose first frame type is a 1-byte varint with payload length <= 3, or the WT signal 0x40 0x41; byte-wise delivery, never Pending (L1 covers chunkings)
-// @oracle same frame / same H3 error code as the one-shot typestate reader, same bytes consumed; truncated frame => H3_FRAME_ERROR, clean end => ImmediateFin
-// @assume From<io::Error> stub; model source never errors
-// @outside inputs longer than 4 bytes in this instance (lengths 3,4 quick; 5 thorough)
-// @unwindset read_frame_async:4
-l2_typestate!(c15_l2_typestate_control_len4, control_stream(), 5, 4);
-
-// @h props=C15,C12 tier=thorough t=2400 mem=20 sub=L2-typestate-control covers=any
-// @fn wtransport-proto/src/stream.rs StreamUniRemoteH3::{read_frame_async,read_frame}
-// @bound control stream; every input of exactly 5 bytes whose first frame type is a 1-byte varint with payload length <= 3, or the WT signal 0x40 0x41; byte-wise delivery, never Pending (L1 covers chunkings)
-// @oracle same frame / same H3 error code as the one-shot typestate reader, same bytes consumed; truncated frame => H3_FRAME_ERROR, clean end => ImmediateFin
-// @assume From<io::Error> stub; model source never errors
-// @outside inputs longer than 5 bytes in this instance (lengths 3,4 quick; 5 thorough)
-// @unwindset read_frame_async:4
-l2_typestate!(c15_l2_typestate_control_len5, control_stream(), 5, 5);
-
-// @h props=C15,C12 tier=quick t=2400 mem=20 sub=L2-typestate-biremote covers=any
-// @fn wtransport-proto/src/stream.rs StreamBiRemoteH3::{read_frame_async,read_frame}
-// @bound peer-opened request stream; every input of exactly 3 bytes whose first frame type is a 1-byte varint with payload length <= 3, or the WT signal 0x40 0x41; byte-wise delivery, never Pending (L1 covers chunkings)
-// @oracle same frame / same H3 error code as the one-shot typestate reader, same bytes consumed; truncated frame => H3_FRAME_ERROR, clean end => ImmediateFin
-// @assume From<io::Error> stub; model source never errors
-// @outside inputs longer than 3 bytes in this instance (lengths 3,4 quick; 5 thorough)
-// @unwindset read_frame_async:4
-l2_typestate!(c15_l2_typestate_biremote_len3, Stream::accept_bi().upgrade(), 5, 3);
-
-// @h props=C15,C12 tier=quick t=2400 mem=20 sub=L2-typestate-biremote covers=any
-// @fn wtransport-proto/src/stream.rs StreamBiRemoteH3::{read_frame_async,read_frame}
-// @bound peer-opened request stream; every input of exactly 4 bytes whose first frame type is a 1-byte varint with payload length <= 3, or the WT signal 0x40 0x41; byte-wise delivery, never Pending (L1 covers chunkings)
-// @oracle same frame / same H3 error code as the one-shot typestate reader, same bytes consumed; truncated frame => H3_FRAME_ERROR, clean end => ImmediateFin
-// @assume From<io::Error> stub; model source never errors
-// @outside inputs longer than 4 bytes in this instance (lengths 3,4 quick; 5 thorough)
-// @unwindset read_frame_async:4
-l2_typestate!(c15_l2_typestate_biremote_len4, Stream::accept_bi().upgrade(), 5, 4);
-
-// @h props=C15,C12 tier=thorough t=2400 mem=20 sub=L2-typestate-biremote covers=any
-// @fn wtransport-proto/src/stream.rs StreamBiRemoteH3::{read_frame_async,read_frame}
-// @bound peer-opened request stream; every input of exactly 5 bytes whose first frame type is a 1-byte varint with payload length <= 3, or the WT signal 0x40 0x41; byte-wise delivery, never Pending (L1 covers chunkings)
-// @oracle same frame / same H3 error code as the one-shot typestate reader, same bytes consumed; truncated frame => H3_FRAME_ERROR, clean end => ImmediateFin
-// @assume From<io::Error> stub; model source never errors
-// @outside inputs longer than 5 bytes in this instance (lengths 3,4 quick; 5 thorough)
-// @unwindset read_frame_async:4
-l2_typestate!(c15_l2_typestate_biremote_len5, Stream::accept_bi().upgrade(), 5, 5);
+// NOTE: "typestate read_frame_async == read_frame on arbitrary bytes" (one query per role holding the one-shot reader,
+// the async reader and its skip loop over symbolic input) ran out of 20-28 GB in every variant tried (symbolic length <= 5,
+// concrete lengths 3/4/5, per-loop bounds). What is decided instead: Frame::read_async == Frame::read on arbitrary bytes
+// (c15_l2_frame), the async typestate readers against the role table for all 49 two-frame sequences
+// (c12_typestate_async_*), and the one-shot typestate readers against the same table (c12_typestate_*).
 
 // @h props=C15,C12,C01 tier=quick t=1800 sub=L2-upgrade
 // @fn wtransport-proto/src/stream.rs StreamUniRemoteQuic::{upgrade_async,upgrade}
